@@ -73,8 +73,69 @@ fn emit(out: &mut Out, bytes: &[u8], opts: usize, level: usize, label: &str) {
     }
 }
 
+/// a source that serves its bytes and then fails on every further call (a file cut off by the device, a directory opened as a
+/// file): it counts how often it is asked again after the first failure, and ends the input after a thousand such calls
+struct FailingSource {
+    data: Vec<u8>,
+    pos: usize,
+    failures: std::rc::Rc<std::cell::Cell<usize>>,
+}
+impl std::io::Read for FailingSource {
+    fn read(&mut self, buf: &mut [u8]) -> std::io::Result<usize> {
+        if self.pos < self.data.len() {
+            let n = buf.len().min(self.data.len() - self.pos).min(7);
+            buf[..n].copy_from_slice(&self.data[self.pos..self.pos + n]);
+            self.pos += n;
+            return Ok(n);
+        }
+        self.failures.set(self.failures.get() + 1);
+        if self.failures.get() > 1000 {
+            Ok(0)
+        } else {
+            Err(std::io::Error::new(std::io::ErrorKind::Other, "device failure"))
+        }
+    }
+}
+/// reading from a source that keeps failing ends, with an error, without asking the source over and over
+fn observe_failing(bytes: &[u8], format: Format, opts: usize, level: usize) -> Sx {
+    let failures = std::rc::Rc::new(std::cell::Cell::new(0usize));
+    let src = FailingSource { data: bytes.to_vec(), pos: 0, failures: failures.clone() };
+    let r = crate::guarded(move || {
+        ReadOptions::default()
+            .set_format(format)
+            .set_level(crate::snap::strictness(level))
+            .set_discard_hydrogens(opts & 1 != 0)
+            .set_only_first_model(opts & 2 != 0)
+            .set_only_atomic_coords(opts & 4 != 0)
+            .read_raw(std::io::BufReader::new(src))
+            .map(|_| ())
+            .map_err(|e| e.iter().map(|x| format!("{x}").len()).sum::<usize>())
+    });
+    match r {
+        None => l(vec![y("panic"), y("-"), y("-")]),
+        Some(Ok(())) => l(vec![y("read-error-ignored"), y("-"), y("-")]),
+        Some(Err(_)) if failures.get() > 3 => l(vec![y("keeps-reading-a-failing-source"), z(failures.get() as i128), y("-")]),
+        Some(Err(_)) => l(vec![y("classified"), b(true), b(true)]),
+    }
+}
+
 pub fn run(seed: u64, count: usize, thorough: bool, out: &mut Out) {
     let mut rng = Rng::new(seed);
+    // 0. a source that fails: after a whole file, in mid-line, at once; both formats, all options and levels
+    {
+        let file = textgen::canonical_file().into_bytes();
+        for (k, cut) in [file.len(), file.len() / 2, 10, 0].into_iter().enumerate() {
+            for opts in 0..8 {
+                for level in 0..3 {
+                    for format in [Format::Pdb, Format::Mmcif] {
+                        let obs = observe_failing(&file[..cut], format, opts, level);
+                        out.case("C05", call("total", vec![Sx::S(file[..cut].to_vec()), z(opts as i128), z(level as i128), z(k as i128)]), obs, "prop:total-on-failing-source", true);
+                    }
+                }
+            }
+            out.count("failing-source");
+        }
+    }
     // 1. every prefix and single-column mutation of a canonical record of each supported type, alone and after an atom
     for (name, line) in textgen::canonical_lines() {
         for m in textgen::line_mutations(&line, &mut rng, thorough) {
